@@ -589,10 +589,19 @@ def dry_lines(r, toks, n):
         if r.chance(1, 4):
             k = r.range(1, 4)
             out.append("drybegin")
-            out += hist[i:i + k]
-            if r.chance(1, 3):
+            if r.chance(1, 2):
+                # written on the branch, read on the branch (a query, a packet), dropped with the branch
                 out.append(msg_line("UpdateParams", AUTHORITY, str(r.choice([0, 5, 64]))))
+                out.append("query Params")
+                out.append(orb_pkt("recv", 1000, cctp_fwd(domain=0, passthrough=b"\x02" * r.choice([1, 6, 70]))))
+            if r.chance(1, 3):
+                out.append(msg_line(r.choice(["PauseProtocol", "UnpauseProtocol"]), AUTHORITY, hx(r.choice(PROTO_NAMES))))
+                out.append("query PausedProtocols")
+            out += hist[i:i + k]
             out.append("dryend")
+            if r.chance(1, 2):
+                out.append("query Params")
+                out.append(orb_pkt("recv", 1000, cctp_fwd(domain=0, passthrough=b"\x02" * r.choice([1, 6, 70]))))
             i += k
         else:
             out.append(hist[i])
@@ -610,6 +619,24 @@ def dry_lines(r, toks, n):
               "deposit %s %s 5000" % (hx(ORB_BYTES), hx("uusdc")),
               orb_pkt("recv", 1000, hyp_fwd(t3, domain=1), None, denom="uother"),
               orb_pkt("recv", 1000, hyp_fwd(t3, domain=1), None, denom="uusdc"), "export"]
+    return lines
+
+
+def large_ledger_lines(r):
+    """a ledger with more entries than any page: export, in-place re-import and the listings must still carry every entry"""
+    lines = ["setup -"]
+    amts, cnts = [], []
+    for ch in range(13):
+        for dom in range(11):
+            sc, dc = "channel-%d" % ch, str(dom * 7)
+            cnts.append("1|%s|2|%s|%d" % (hx(sc), hx(dc), r.range(1, 99)))
+            for dn in (["uusdc", "uother"] if (ch + dom) % 3 == 0 else ["uusdc"]):
+                amts.append("1|%s|2|%s|%s|%d|%d" % (hx(sc), hx(dc), hx(dn), r.range(1, 10 ** 9), r.range(0, 10 ** 9)))
+    g = "pp=[];pcc=[];pa=[];params=7;amts=[%s];cnts=[%s]" % (",".join(amts), ",".join(cnts))
+    lines += ["genload " + g, "export", "reimport", "export",
+              "query DispatchedCountsBySrc %s nopage" % hx("PROTOCOL_IBC"), "query DispatchedAmountsByDst %s nopage" % hx("PROTOCOL_CCTP"),
+              orb_pkt("recv", 1000, cctp_fwd(domain=7), dst_chan="channel-12"), orb_pkt("recv", 1000, cctp_fwd(domain=70), dst_chan="channel-9"),
+              "reimport", "export", "geninit " + g]
     return lines
 
 
@@ -693,6 +720,20 @@ def c14_packets(r, toks, per_shape):
     # fee extremes end to end
     lines.append(orb_pkt("recv", 2 ** 256 - 1, int_fwd(U[1]), [fee_action([(U[0], "a", 2 ** 255), (U[2], "a", 2 ** 255)])], denom="uother"))
     lines.append(orb_pkt("recv", 10 ** 30, int_fwd(U[1]), [fee_action([(U[0], "b", 10000), (U[2], "b", 10000)])], denom="uother"))
+    # the same recipient more than once with amounts whose sum leaves 256 bits; sums of every arrangement near the bound
+    big = 2 ** 255
+    for es in ([(U[0], "a", big), (U[0], "a", big)], [(U[0], "a", big), (U[2], "a", 5), (U[0], "a", big)], [(U[0], "a", 2 ** 256 - 1), (U[0], "a", 1)],
+               [(U[0], "a", 2 ** 256 - 1), (U[0], "b", 1)], [(U[0], "b", 10000)] * 5, [(U[0], "a", big - 1), (U[0], "a", big)]):
+        lines.append(orb_pkt("recv", 2 ** 256 - 1, int_fwd(U[1]), [fee_action(es)], denom="uother"))
+        lines.append(orb_pkt("recv", 1000, int_fwd(U[1]), [fee_action(es)]))
+    # coins already sitting on the orbiter account (anyone can send them), in the transferred denomination and in others, before valid
+    # and invalid packets
+    for dn, n_ in (("uusdc", 5), ("uother", 1), ("uusdc", 10 ** 30), ("stake", 7)):
+        lines.append("deposit %s %s %d" % (hx(ORB_BYTES), hx(dn), n_))
+        for rt in (int_fwd(U[1]), cctp_fwd(domain=0), hyp_fwd(tok, domain=1)):
+            lines.append(orb_pkt("recv", 1000, rt, [fee_action([(U[2], "b", 100)])]))
+            lines.append(orb_pkt("recv", 1000, rt, None, denom="uother"))
+        lines.append(pkt_line("recv", ftpd("transfer/channel-7/uusdc", 1000, ORB, "{\"orbiter\":{}}")))
     return lines
 
 
@@ -1611,6 +1652,18 @@ def pause_targeted(toks):
         lines.append(msg_line("UnpauseProtocol", AUTHORITY, hx(p)))
         lines.append(orb_pkt("recv", 10 ** 6, fwd, None, denom=dn))
         lines.append("export")
+    # one spelling per identifier: what the pause messages refuse, the queries refuse too (while domain 5 is paused)
+    for p in ("PROTOCOL_CCTP", "PROTOCOL_HYPERLANE"):
+        lines.append(msg_line("PauseCrossChains", AUTHORITY, hx(p), hx("5")))
+        for c in ("5", "05", "+5", " 5", "5 ", "5.0", "0x5", "4294967296", "4294967301", "-1", "channel-5", "", "x" * 33, "٥"):
+            lines.append("query IsCrossChainPaused %s %s" % (hx(p), hx(c)))
+            lines.append(msg_line("PauseCrossChains", AUTHORITY, hx(p), hx(c)))
+            lines.append(msg_line("UnpauseCrossChains", AUTHORITY, hx(p), hx(c)))
+            lines.append("query DispatchedCounts %s %s %s %s" % (hx("PROTOCOL_IBC"), hx("channel-0"), hx(p), hx(c)))
+        lines.append("query PausedCrossChains %s nopage" % hx(p))
+    for c in ("channel-0", "channel-00", "Channel-0", "channel-", "channel-18446744073709551616", "", "noble"):
+        lines.append("query IsCrossChainPaused %s %s" % (hx("PROTOCOL_IBC"), hx(c)))
+        lines.append("query IsCrossChainPaused %s %s" % (hx("PROTOCOL_INTERNAL"), hx(c)))
     # actions
     for a in ("ACTION_FEE", "ACTION_SWAP"):
         lines.append(msg_line("PauseAction", AUTHORITY, hx(a)))
@@ -2039,6 +2092,7 @@ class C12(Base):
                 if l.startswith("recvh") and r.chance(1, 8):
                     hist2.append(orb_pkt("recvh", r.range(1, 10 ** 9), int_fwd(r.choice(U[:3])), [swap_action(), fee_action([(U[4], "b", 100)])], denom="uusdc", dst_chan=r.choice(CHANNELS)))
             out.append(Stream("S3-stats-history-%d" % h, lines + hist2, fields=f, oracle=c12_oracle))
+        out.append(Stream("S3-large-ledger", large_ledger_lines(Rng(seed * 1000 + 112))))
         return out
 
 
@@ -2271,7 +2325,9 @@ def c13_genesis_doc(r):
     """a ledger as a chain started from a genesis may hold it: several *source* protocols (the same domain number under CCTP
     and Hyperlane), destinations whose ids are prefixes of one another, several denoms per route"""
     srcs = [(1, "channel-0"), (1, "channel-1"), (2, "1"), (3, "1"), (2, "10"), (3, "10"), (4, "noble")]
-    dsts = [(2, "0"), (2, "1"), (3, "1"), (3, "10"), (3, "100"), (4, "noble"), (4, "nob")]
+    # among the destinations: identifiers that begin with their protocol's own number, or repeat it (2:2, 2:22, 3:31337, 4:4…)
+    dsts = [(2, "0"), (2, "1"), (3, "1"), (3, "10"), (3, "100"), (4, "noble"), (4, "nob"), (2, "2"), (2, "21"), (2, "22"), (3, "3"), (3, "31337"), (3, "324"),
+            (4, "4"), (4, "44:4")]
     amts, cnts = [], []
     for (sp, sc) in srcs:
         for (dp, dc) in dsts:
@@ -2799,6 +2855,7 @@ class C17(Base):
         ll, expect = c17_export_geninit_build(r.fork(1), self.n(tier, 160, 600), toks)
         out.append(Stream("S3-export-to-fresh-chain", ll, fields=f, oracle=c17_make_fresh_oracle(expect), shrink=False))
         out.append(Stream("S3-genesis-documents", c17_doc_lines(r.fork(2), self.n(tier, 120, 1500)), fields=f, oracle=c17_doc_oracle))
+        out.append(Stream("S3-large-ledger", large_ledger_lines(Rng(seed * 1000 + 117))))
         return out
 
 
@@ -2860,6 +2917,12 @@ def c19_lines(r, n, toks):
 
 def c19_make_oracle(lines, nproc):
     def oracle(steps):
+        pre = []
+        for s in steps:
+            if s.op in RECV_OPS and s.impl.get("evaddr") == "1":
+                pre.append((s.i, "address-in-event: a value of an orbiter event looks like the address of an object"))
+        if pre:
+            return pre[:3]
         import concurrent.futures
         from proto import IMPL, run_batch
 
@@ -2922,4 +2985,5 @@ class C19(Base):
             out.append(Stream("S4-replays-in-fresh-processes-%d" % h, lines, model=False, oracle=c19_make_oracle(lines, self.n(tier, 3, 10)), shrink=False,
                               note="%d processes" % self.n(tier, 3, 10)))
             out.append(Stream("S3-model-agreement-%d" % h, lines[:-6], fields={"recv": ["ack", "src", "bal", "mv", "st"], "msg": ["res", "st"], "query": ["res", "out"], "export": ["st"]}))
+        out.append(Stream("S3-dropped-branches", dry_lines(Rng(seed * 1000 + 119), toks, self.n(tier, 80, 300))))
         return out
